@@ -133,3 +133,12 @@ Print Assumptions C04_lexer_tables_regenerated.
 Theorem C04_parser_tables_regenerated : parse_tables_ok = true.
 Proof. exact parse_tables_regenerated. Qed.
 Print Assumptions C04_parser_tables_regenerated.
+
+(* With the built-in registry the accepted language is pinned down exactly, typing included: whatever compile() accepts is a string of bf_grammar
+   (Spec/BuiltinGrammar.v: the RFC grammar in which every function call is a well-typed use of the five built-in functions); Proofs/TextSoundB.v.
+   The other inclusion is C03_complete_abnf_builtin. *)
+From JP Require Import Model.Ast Spec.BuiltinGrammar Proofs.TextSoundB.
+Theorem C04_sound_builtin : forall cfg text q, reg cfg = builtin_registry -> forallb is_scalar text = true ->
+  m_compile cfg text = Ok q -> derives bf_grammar (R r_jsonpath_query) text.
+Proof. intros cfg text q E Hsc Hc. exact (compile_text_sound_builtin cfg text q (proj2 (builtin_std cfg E)) Hsc Hc). Qed.
+Print Assumptions C04_sound_builtin.
